@@ -139,7 +139,7 @@ PROPS["C09"] = dict(engine="E10", level="exploration",
    design_ref="DESIGN.md 5.9", technique="runtime monitoring: snapshot oracle at synctest quiescence barriers, event-replay mirror, goroutine-census conservation across create/close cycles")
 
 PROPS["C20"] = dict(engine="E18", level="exploration",
-   rule="(a) differential: for each of the 12 typed packages (facade code instantiated from one harness template), a typed controller and an untyped kcache controller on ONE fake server run the same seeded scenario over the whole typed surface (Subscribe, SubscribeWithFilter, SubscribeForFilter, Clone, CloneWithFilter, CloneForFilter, subscribers below each clone, Refilter, Cache().List/Get, NewMonitor on root and on a filtered clone, a stalled subscriber for overflow, Close of a subscription / clone / monitor / root); 30-60 steps of mutations and refilters with a quiescence barrier and a full comparison after EVERY step (cache content restricted to the type, event sequences, callback sequences, readiness, doneness), plus variants injecting a foreign-typed object through the watch stream and through a heterogeneous list. (b) REST recorder: every typed NewController over an in-memory http.RoundTripper for namespace in {all, default, kube-system}; recorded list and watch requests vs an independently written table. distinct = distinct case descriptor; non-trivial = reached at least one comparison / request check. The generated joins are exercised by E10 (C09).",
+   rule="(a) differential: for each of the 12 typed packages (facade code instantiated from one harness template), a typed controller and an untyped kcache controller on ONE fake server run the same seeded scenario over the whole typed surface (Subscribe, SubscribeWithFilter, SubscribeForFilter, Clone, CloneWithFilter, CloneForFilter, subscribers below each clone, Refilter, Cache().List/Get, NewMonitor on root and on a filtered clone, a stalled subscriber for overflow, Close of a subscription / clone / monitor / root, or cancellation of the constructor's context); 30-60 steps of mutations and refilters with a quiescence barrier and a full comparison after EVERY step (cache content restricted to the type, event sequences, callback sequences, readiness, doneness), plus variants injecting a foreign-typed object through the watch stream and through a heterogeneous list. (b) REST recorder: every typed NewController over an in-memory http.RoundTripper for namespace in {all, default, kube-system}; recorded list and watch requests vs an independently written table. distinct = distinct case descriptor; non-trivial = reached at least one comparison / request check. The generated joins are exercised by E10 (C09).",
    assumptions=["sequence equality is demanded only in clean segments (no relist within the run, no watch faults), where both sequences are determined by the server log", "client-go is trusted to build and issue the requests it is asked for", "NOT decided: textual equality of generated*.go with the instantiated templates (a property of program text; DESIGN 5.20c / 9)"],
    floors={"any": {"cache-comparisons": 4000, "stream-comparisons": 4000, "callback-comparisons": 1000, "request-checks": 34, "overflow-checks": 40, "foreign-objects-in-untyped-cache": 50}},
    level_text="Differential runtime monitoring of every typed package against the untyped core on identical inputs, over the whole typed API surface, with exact comparison at quiescence barriers; request-level recording of what each typed client lists and watches. The source-text clause of the property is outside what executions can observe and is not claimed.",
@@ -167,7 +167,7 @@ ENGINES = {
 NA = {}
 # ---- coverage floors (quick tier): half of what a quick run at seed 1 observes; counts that are
 # deterministic by construction (states, pairs of C07, request-checks) are exact.  A thorough run must
-# reach at least the same.  Generated from the evidence files; not tuned per seed.
+# reach at least the same.  Generated by mkfloors.py from the evidence files; not tuned per seed.
 FLOORS_QUICK = {
  "C01": {
   "states": 232,
@@ -184,41 +184,43 @@ FLOORS_QUICK = {
   "mirror-checks": 364,
   "per-list-checks": 112,
   "post-list-checks": 120,
-  "restart-version-checks": 5491
+  "restart-version-checks": 5485
  },
  "C04": {
   "continuity-checks": 398,
-  "reconnect-version-checks": 673,
-  "reconnects": 673
+  "reconnect-version-checks": 674,
+  "reconnects": 674
  },
  "C05": {
   "burst-then-stop-cases": 40,
   "controller-path-leaves": 281,
-  "events-received": 366498,
+  "events-received": 366474,
   "leaves": 1771,
   "mid-burst-closes": 533,
   "mid-burst-subscribers": 719,
   "stale-wire-events": 2362
  },
  "C06": {
-  "filtered-node-checks": 20416,
-  "filtered-node-checks-nonempty": 11316,
+  "filtered-node-checks": 20409,
+  "filtered-node-checks-nonempty": 11314,
   "mid-flow-closes": 709,
-  "mirror-checks": 9405,
+  "mirror-checks": 9415,
   "refilters": 6429
  },
  "C07": {
+  "back-to-back-refilters": 2048,
   "pairs": 16384,
   "refilters-silent": 6108,
   "refilters-with-delta": 5156
  },
  "C08": {
-  "content-at-readiness-checks": 55614,
+  "content-at-readiness-checks": 61728,
   "controller-readiness-cases": 60,
   "directed-stale-inflight-attempts": 50,
+  "failed-first-list-cases": 10,
   "not-ready-while-listing-checks": 48,
-  "ready-state-checks": 565320,
-  "sequences": 52392
+  "ready-state-checks": 668820,
+  "sequences": 64224
  },
  "C09": {
   "close-cycles": 220,
@@ -229,18 +231,18 @@ FLOORS_QUICK = {
   "join-mirror-checks": 410,
   "late-destination-joins": 9,
   "ready-order-checks": 220,
-  "refilter-points": 3875
+  "refilter-points": 3866
  },
  "C10": {
   "blocked-monitors-checked": 44,
   "cache-current-checks": 586,
   "healthy-streams-checked": 222,
-  "overruns": 12678,
+  "overruns": 12677,
   "slow-streams-checked": 47,
   "stalled-refilter-checks": 19,
   "stalled-streams-checked": 180,
   "stress-typed-cases": 8,
-  "stress-typed-reads": 16326
+  "stress-typed-reads": 16170
  },
  "C11": {
   "outside-nodes-checked": 633,
@@ -248,51 +250,52 @@ FLOORS_QUICK = {
   "survivor-rounds": 78
  },
  "C12": {
-  "post-done-api-calls": 27059,
+  "post-done-api-calls": 27080,
   "racing-calls": 1488,
   "set:trigger-points": 17,
   "terminations": 372
  },
  "C13": {
   "count-checks": 72,
-  "gap-checks": 1565,
-  "lists": 1637
+  "gap-checks": 1563,
+  "lists": 1635
  },
  "C14": {
-  "failstop-checks": 42,
-  "never-ready-checks": 7,
+  "failstop-checks": 54,
+  "never-ready-checks": 10,
   "not-fatal-checks": 56
  },
  "C15": {
   "big-histories": 24,
-  "big-snapshots": 62253,
+  "big-snapshots": 51605,
   "histories": 160,
   "linearizable": 160,
-  "reads": 26049
+  "reads": 26905
  },
  "C16": {
-  "callbacks": 2959,
+  "callbacks": 2946,
   "exact-stream-checks": 30,
   "init-content-checks": 63,
   "no-callback-checks": 9
  },
  "C17": {
-  "pairs": 2494242,
-  "pairs-reported-equal": 6579,
-  "permutation-checks": 282,
-  "rebuilt-checks": 25441
+  "pairs": 8786898,
+  "pairs-reported-equal": 8325,
+  "permutation-checks": 536,
+  "rebuilt-checks": 26534
  },
  "C18": {
-  "accept-evaluations": 79040,
-  "composite-terms": 356
+  "accept-evaluations": 281424,
+  "composite-terms": 1290
  },
  "C19": {
-  "accepting-evaluations": 154596,
-  "ownership-evaluations": 491321
+  "accepting-evaluations": 372926,
+  "ownership-evaluations": 1114175
  },
  "C20": {
   "cache-comparisons": 4624,
   "callback-comparisons": 2312,
+  "context-cancel-lifecycle-checks": 6,
   "foreign-objects-in-untyped-cache": 1282,
   "overflow-checks": 48,
   "request-checks": 34,
